@@ -46,7 +46,8 @@ def count_lines(path):
 
 
 def run_harness(ctx, cases, what, timeout=900):
-    r = ctx.gotest("route", FILES, "^TestVerifC03$", env={"VERIF_IN": cases, "VERIF_WORKERS": WORKERS}, timeout=timeout)
+    r = ctx.gotest("route", FILES, "^TestVerifC03$", timeout=timeout,
+                   env={"VERIF_IN": cases, "VERIF_WORKERS": WORKERS, "VERIF_BATCH_EVERY": ctx.pick(1, 4)})
     if not ctx.need_go_ok(r, what):
         return None
     if r.of_kind("error"):
@@ -64,6 +65,7 @@ def run(ctx):
         "nested braces, negated classes, ranges and '**' in host patterns and glob paths beyond literal + trailing '*' are outside the universe; path characters sorting below '*' (space ! \" # $ % & ' ( )) are outside the universe",
         "Table.LookupHost (TCP+SNI): only 'a route whose host is literally the server name, path /, serves it' is claimed; fallback to host-less or wildcard routes for SNI lookups is not judged",
         "the table is what a history of route commands leaves: routes that were added and deleted again (one, thorough two, per table; the three forms of `route del`) must neither serve nor shadow; such tables are built both by NewTable (text) and by NewTableCustom (command list of the custom back end), plain tables alternate between the two builders",
+        "requests in flight together: the lines of one table that the generator printed consecutively (all 42 of a random table, fragments of the exhaustive ones) are replayed by 8 goroutines at once on one table with one shared GlobCache; every answer must be the sequential one (the statement quantifies over every request; scheduling is whatever the Go runtime does, so this pass can miss an interleaving - C06 owns the exhaustive treatment)",
         "one target per route (the service name encodes the route), so the picker plays no role here (C04)",
     ]
     # 1. well-definedness of the declarative choice on the model
@@ -100,10 +102,10 @@ def run(ctx):
         if not ctx.need_tlc_ok(g, "Match Gen " + name):
             return
         ctx.cover("gen " + name, states=g.distinct, transitions=g.generated)
-    sims = [(3, ctx.pick(300, 1500))]
+    sims = [(3, ctx.pick(300, 1000))]
     if ctx.thorough:
-        sims.append((4, 1500))
-        sims.append((6, 500))
+        sims.append((4, 1000))
+        sims.append((6, 300))
     for n, num in sims:
         before = count_lines(cases)
         sim = ctx.tlc("Match_MC", cfg_text=cfg("SimSpec", n, gone=1), simulate=num, depth=n + 5, seed=ctx.seed,
@@ -126,7 +128,8 @@ def run(ctx):
     ctx.log("replayed %d transitions = %d lookups + %d LookupHost calls (%d routed, %d unrouted, %d not posed), %d failed, %.0fs"
             % (s["lines"], s["lookups"], s["sni"], s["routed"], s["unrouted"], s["illposed"], s["fails"], r.wall))
     ctx.log("tables with a history (routes added and deleted again), each built by NewTable and by NewTableCustom: %d" % s["histories"])
-    if s["lookups"] == 0 or s["routed"] == 0 or s["unrouted"] == 0 or s["histories"] == 0:
+    ctx.log("requests in flight together: %d tables replayed from 8 goroutines each, %d lookups" % (s["concurrent_tables"], s["concurrent_lookups"]))
+    if s["lookups"] == 0 or s["routed"] == 0 or s["unrouted"] == 0 or s["histories"] == 0 or s["concurrent_tables"] == 0:
         ctx.inconclusive("C03: vacuous replay (%s)" % json.dumps(s)[:300])
         return
     ctx.cover(traces_validated_against_impl=s["lines"], evaluations=s["lookups"] + s["sni"],
@@ -137,7 +140,7 @@ def run(ctx):
     # 3b. gRPC leg (synthetic request built by GrpcProxyInterceptor.lookup): plain-connection
     #     transitions, a seed-selected slice in the quick tier
     g = ctx.gotest("proxy", ["proxy/c03_grpc_test.go"], "^TestVerifC03Grpc$",
-                   env={"VERIF_IN": cases, "VERIF_GRPC_EVERY": ctx.pick(8, 2)}, timeout=900)
+                   env={"VERIF_IN": cases, "VERIF_GRPC_EVERY": ctx.pick(8, 4)}, timeout=900)
     if not ctx.need_go_ok(g, "C03 gRPC replay"):
         return
     if g.of_kind("error"):
